@@ -143,6 +143,13 @@ func Main() {
 	os.Exit(2)
 }
 
+func (p *Property) stallDefault() int {
+	if p.StallS > 0 {
+		return p.StallS
+	}
+	return 120
+}
+
 func getProp(id string) *Property {
 	p, ok := registry[id]
 	if !ok {
@@ -357,7 +364,7 @@ func cmdReplay(args []string) int {
 	if rf.FromSeed {
 		self, _ := os.Executable()
 		st := &checkState{hashes: map[uint64]struct{}{}}
-		stall := 5 * time.Duration(envInt("VERIF_STALL_S", 120)) * time.Second
+		stall := 5 * time.Duration(envInt("VERIF_STALL_S", p.stallDefault())) * time.Second
 		r := runWorker(self, p, rf.Seed, batch{rf.Scenario, rf.RunIndex, rf.RunIndex + 1}, avoidSet(strings.Join(rf.Avoid, ",")), st, stall)
 		if r.done && len(st.viols) == 0 {
 			fmt.Println("REPLAY: the run completes without violation")
@@ -520,6 +527,12 @@ type checkState struct {
 	harness []string
 	stalls  []string
 	execNs  int64
+	// fatal counts process-fatal violations per signature; once a scenario
+	// has killed its process twice in the same way the rest of its runs is
+	// not executed (every further death costs two fresh processes and, for a
+	// hang, minutes): the violation is established
+	fatal     map[string]int
+	abandoned map[string]int // scenario -> runs not executed
 }
 
 func repoHead() string {
@@ -586,7 +599,7 @@ func cmdCheck(args []string) int {
 			maxS = 150
 		}
 	}
-	stallS := envInt("VERIF_STALL_S", 120)
+	stallS := envInt("VERIF_STALL_S", p.stallDefault())
 	self, _ := os.Executable()
 	fmt.Printf("check property=%s tier=%s seed=%d runs=%d workers=%d engine=%s repo=%s\n", p.ID, *tier, seed, total, *workers, p.Engine, repoHead())
 
@@ -703,6 +716,10 @@ func cmdCheck(args []string) int {
 	}
 	close(ch)
 	wg.Wait()
+	for sc, n := range st.abandoned {
+		skipped += n
+		fmt.Printf("  %d runs of scenario %s not executed: the scenario had already killed its process twice in the same way\n", n, sc)
+	}
 
 	if len(st.harness) > 0 {
 		for _, h := range st.harness {
@@ -825,6 +842,22 @@ func runProbe(self, prop, id string, stall time.Duration) (*probeResult, bool, e
 func runBatch(self string, p *Property, seed uint64, b batch, avoid map[string]bool, st *checkState, stall time.Duration) {
 	from := b.from
 	for from < b.to {
+		st.mu.Lock()
+		given := false
+		for sig, n := range st.fatal {
+			if n >= 2 && strings.HasPrefix(sig, p.ID+"|process-fatal|"+b.sc+"|") {
+				given = true
+			}
+		}
+		if given {
+			if st.abandoned == nil {
+				st.abandoned = map[string]int{}
+			}
+			st.abandoned[b.sc] += b.to - from
+			st.mu.Unlock()
+			return
+		}
+		st.mu.Unlock()
 		r := runWorker(self, p, seed, batch{b.sc, from, b.to}, avoid, st, stall)
 		if r.done {
 			return
@@ -869,6 +902,10 @@ func runBatch(self string, p *Property, seed uint64, b batch, avoid map[string]b
 			Message: fmt.Sprintf("run %d of scenario %s kills its process (%s), reproduced in two fresh processes: %s", culprit, b.sc, first.what(stall), msg)}
 		st.mu.Lock()
 		st.viols = append(st.viols, workerViolation{Scenario: b.sc, RunIndex: culprit, RawSig: v.Signature, Violation: v, FromSeed: true, Stderr: clip(first.stderr, 6000)})
+		if st.fatal == nil {
+			st.fatal = map[string]int{}
+		}
+		st.fatal[v.Signature]++
 		st.mu.Unlock()
 		from = culprit + 1
 	}
